@@ -787,7 +787,11 @@ func opHistogram(out *Out, h *HHistory, obs []HObs) {
 func (g *gen) randLife(c *HConfig) map[string]int64 {
 	m := map[string]int64{}
 	for _, k := range lifeKeys {
-		if !g.r.Chance(45) {
+		pct := 45
+		if c.LifeRT < 0 && strings.HasSuffix(k, "_rt") {
+			pct = 75 // finite per-client refresh-token lifetimes under an unlimited server default
+		}
+		if !g.r.Chance(pct) {
 			continue
 		}
 		if c.LifeAT < 10000 {
